@@ -35,7 +35,7 @@ import sched
 from runner import Infra
 
 RULE = ('front ends (oracle only): 2-3 real WebSession workers over the real pool / the real HTTPProxyConnectionPool (CONNECT + TLS tunnels), '
-        'keep-alive and closing responses, seeded deterministic loop; then: '
+        'keep-alive and closing responses, raising event listeners, early exits, refused connects, failing tunnels, seeded deterministic loop; then: '
         'case = per-host limit M in 1..2(3), max_count, N<=5 client programs of 1..3 rounds over H<=2 host keys '
         '(close / connect-failure / keep-alive, no_wait_release or direct release) x a schedule of task steps, '
         'task.cancel() and remote closes chosen by the seeded scheduler (quick) or enumerated exhaustively over all '
@@ -799,6 +799,10 @@ def run(ctx):
             c12_sessions.check(ctx, fc)
             if i == 0:
                 ctx.sample(fc)
+        # the same with failing listeners on the session event dispatchers (what a full disk does to the WARC
+        # recorder, or a plugin bug), sessions left early, refused connections and failing CONNECT tunnels
+        for i in range(ctx.scale(350, 5000)):
+            c12_sessions.check(ctx, c12_sessions.gen_case(frng, stream, faults=True))
     # sampled schedules
     items = []
     for i in range(ctx.scale(5000, 60000)):
@@ -872,6 +876,7 @@ def search(ctx):
     for stream in ('session', 'proxy'):
         for i in range(ctx.scale(100, 400)):
             c12_sessions.check(ctx, c12_sessions.gen_case(frng, stream))
+            c12_sessions.check(ctx, c12_sessions.gen_case(frng, stream, faults=True))
     rng = ctx.subrng('search')
     items = []
     for i in range(ctx.scale(300, 1500)):
